@@ -110,6 +110,9 @@ func taggedToJSONText(t any) string {
 		}
 		return "false"
 	case "num":
+		if big, _ := m["big"].(bool); big {
+			return "10000000000000000000" // 10^19: beyond int64, exact in float64 (spec/SchemaUniverse.tla Big)
+		}
 		dec, _ := m["dec"].(bool)
 		return quarterText(asInt(m["q"]), dec)
 	case "str":
@@ -155,6 +158,9 @@ func goToTagged(v any) (t any, ok bool) {
 	case bool:
 		return T{"t": "bool", "b": x}, true
 	case float64:
+		if x == 1e19 {
+			return T{"t": "num", "q": 2000000000, "big": true}, true
+		}
 		q := x * 4
 		if q != math.Trunc(q) || math.Abs(q) > 1e9 {
 			return nil, false
